@@ -12,6 +12,7 @@ import ast
 import copy
 
 from .core import AnalysisError, unparse
+from .inline import InlineBlock, acopy
 
 
 class Unsupported(AnalysisError):
@@ -41,7 +42,7 @@ class _Sub(ast.NodeTransformer):
 
     def visit_Name(self, n):
         if isinstance(n.ctx, ast.Load) and n.id in self.env:
-            return copy.deepcopy(self.env[n.id])
+            return acopy(self.env[n.id])
         return n
 
     def visit_Lambda(self, n):
@@ -68,7 +69,7 @@ class _Sub(ast.NodeTransformer):
 def subst(e, env):
     if e is None:
         return None
-    return _Sub(env).visit(copy.deepcopy(e))
+    return _Sub(env).visit(acopy(e))
 
 
 def _split(test, env):
@@ -102,26 +103,42 @@ def _split(test, env):
 def summaries(fn, max_paths=2048, params_env=None):
     out = []
 
-    def run(stmts, conds, env, effects, k):
+    def run(stmts, conds, env, effects, k, retk=None):
         """k: continuation called with (conds, env, effects) when the block
-        completes normally."""
+        completes normally; retk: what `return` does (inside an inlined
+        call it binds the call's target and continues after the block)."""
         if not stmts:
             k(conds, env, effects)
             return
         s, rest = stmts[0], stmts[1:]
+        if isinstance(s, InlineBlock):
+            def bind(c, e, f, v):
+                e2 = dict(e)
+                if isinstance(s.target, ast.Name):
+                    e2[s.target.id] = v if v is not None else \
+                        ast.Constant(None)
+                elif isinstance(s.target, ast.Tuple) and isinstance(
+                        v, ast.Tuple) and len(v.elts) == len(s.target.elts):
+                    for x, y in zip(s.target.elts, v.elts):
+                        if isinstance(x, ast.Name):
+                            e2[x.id] = y
+                run(rest, c, e2, f, k, retk)
+            run(list(s.body), conds, env, effects,
+                lambda c, e, f: bind(c, e, f, None), bind)
+            return
         if len(out) > max_paths:
             raise Unsupported("too many paths in %s" % fn.name)
         if isinstance(s, ast.Expr):
             if isinstance(s.value, ast.Constant):
                 return run(rest, conds, env, effects, k)
             return run(rest, conds, env, effects + [
-                ("expr", subst(s.value, env))], k)
+                ("expr", subst(s.value, env))], k, retk)
         if isinstance(s, ast.Pass):
-            return run(rest, conds, env, effects, k)
+            return run(rest, conds, env, effects, k, retk)
         if isinstance(s, (ast.Assign, ast.AnnAssign)):
             if isinstance(s, ast.AnnAssign):
                 if s.value is None:
-                    return run(rest, conds, env, effects, k)
+                    return run(rest, conds, env, effects, k, retk)
                 targets = [s.target]
             else:
                 targets = s.targets
@@ -140,10 +157,10 @@ def summaries(fn, max_paths=2048, params_env=None):
                         isinstance(x, ast.Name) for x in t.elts):
                     for i, x in enumerate(t.elts):
                         env2[x.id] = ast.Subscript(
-                            copy.deepcopy(v), ast.Constant(i), ast.Load())
+                            acopy(v), ast.Constant(i), ast.Load())
                 else:
                     eff.append((unparse(subst(t, env), 200), v))
-            return run(rest, conds, env2, eff, k)
+            return run(rest, conds, env2, eff, k, retk)
         if isinstance(s, ast.AugAssign):
             cur = subst(ast.Name(s.target.id, ast.Load()), env) if isinstance(
                 s.target, ast.Name) else subst(s.target, env)
@@ -151,10 +168,13 @@ def summaries(fn, max_paths=2048, params_env=None):
             if isinstance(s.target, ast.Name):
                 env2 = dict(env)
                 env2[s.target.id] = v
-                return run(rest, conds, env2, effects, k)
+                return run(rest, conds, env2, effects, k, retk)
             return run(rest, conds, env, effects + [
-                (unparse(subst(s.target, env), 200), v)], k)
+                (unparse(subst(s.target, env), 200), v)], k, retk)
         if isinstance(s, ast.Return):
+            if retk is not None:
+                retk(conds, env, effects, subst(s.value, env))
+                return
             out.append(Path(conds, "return", subst(s.value, env), env,
                             effects))
             return
@@ -168,10 +188,11 @@ def summaries(fn, max_paths=2048, params_env=None):
                 if any((ast.dump(t), not v) in seen for t, v in c):
                     continue
                 body = s.body if b else s.orelse
-                run(list(body) + list(rest), conds + c, env, effects, k)
+                run(list(body) + list(rest), conds + c, env, effects, k,
+                    retk)
             return
         if isinstance(s, ast.Assert):
-            return run(rest, conds, env, effects, k)
+            return run(rest, conds, env, effects, k, retk)
         raise Unsupported("%s: statement %s at line %s is outside the "
                           "loop-free subset" % (fn.name, type(s).__name__,
                                                 getattr(s, "lineno", "?")))
